@@ -17,6 +17,8 @@ structure Sess where
   zit    : Option (Nat × Nat × Deque.Iter) := none
   szit   : Option (Nat × Nat × Cur) := none
   mem    : Mem := {}
+  /-- `obs=sparse` was given on a constructor line: no content sweep except in `observe` -/
+  sparse : Bool := false
 
 def nslot : Nat := 2
 def getM (s : Sess) (k : Nat) : Option Queue := (s.models[k]?).join
@@ -46,8 +48,10 @@ def phys (s : Sess) : String :=
   if all.isEmpty then "-" else " ".intercalate all
 def inv (s : Sess) : Bool := s.models.all fun d => match d with | none => true | some d => decide d.Inv
 
-def fin (s : Sess) (hdS hdM : String) : Sess × String × String :=
-  (s, s!"S {hdS}{obsS s}", s!"M {hdM}{obsM s} | {phys s} | {fmtMem s.mem} | {fmtFlags (inv s) s.mem}")
+def fin (s : Sess) (hdS hdM : String) (sweep : Bool := false) : Sess × String × String :=
+  let oS := if s.sparse && !sweep then "" else obsS s
+  let oM := if s.sparse && !sweep then "" else obsM s
+  (s, s!"S {hdS}{oS}", s!"M {hdM}{oM} | {phys s} | {fmtMem s.mem} | {fmtFlags (inv s) s.mem}")
 def early (s : Sess) (m : Mem) (what : String) : Sess × String × String :=
   ({ s with mem := m }, s!"S st=- {what}", s!"M st=- {what} | - | {fmtMem m} | {fmtFlags true m}")
 def hdOut (st : Stat) (out : Option Nat) (noout : Bool) : String :=
@@ -76,10 +80,12 @@ def step (s : Sess) (c : Cmd) : Sess × String × String :=
     let cap := if c.op == "new" then c.nat "cap" Gen.DEQUE_DEFAULT_CAPACITY else Gen.DEQUE_DEFAULT_CAPACITY
     let r := Queue.new cap (if c.op == "new" then .conf else .libc) m   -- cc_queue_new: C library triple
     let sp : Stat × Option Fifo := if refused then (.errAlloc, none) else (.ok, some {})
-    fin (setS (setM { s with mem := r.2.2 } k r.2.1) k sp.2) (fmtStat sp.1) (fmtStat r.1)
+    let sparse := s.sparse || c.str "obs" == some "sparse"
+    fin (setS (setM { s with mem := r.2.2, sparse := sparse } k r.2.1) k sp.2) (fmtStat sp.1) (fmtStat r.1)
+  | "observe" => fin { s with mem := m } "st=-" "st=-" true
   | "destroy" =>
     let m := s.models.foldl (fun m d => match d with | some d => d.destroy m | none => m) m
-    fin { mem := m } "st=-" "st=-"
+    fin { mem := m, sparse := s.sparse } "st=-" "st=-"
   | "zit_new" =>
     let k2 := c.nat "o2" 1
     if k2 ≥ nslot ∨ (getM s k).isNone ∨ (getM s k2).isNone then early s m "nosession" else
